@@ -18,6 +18,12 @@ def run(tier, seed):
             c["env"] = {"VM_FORCE_SPARSE": "1"}
             c["threads"] = (8, 6, 12, 4)[(i // 2) % 4]
             c["fp"] = 3 if i % 4 == 1 else 2
+        elif i % 4 == 0:
+            # clustered terminations: every LP is also done at its first event at/after a common timestamp, so near the end the LPs of a
+            # thread become done within a narrow band of virtual time and rollbacks around that band flip them back and forth
+            c["env"] = {"VM_END_CLUSTER": str((50, 30, 70)[(i // 4) % 3])}
+            if (i // 4) % 2:
+                c["env"].update({"VM_FORCE_TS": "3", "VM_FORCE_RNG": "0"})
     sim_common.run_sim_cases(chk, cases, timeout=300)
     chk.rule = ("one case = (generated model: predicates true at init, first true after a handful of events (often at timestamp 0), targets reached "
                 "speculatively and rolled back, unbalanced LP-to-thread layouts incl. more threads than LPs; termination-time runs); non-trivial / distinct as C01")
